@@ -178,7 +178,10 @@ def run(ctx):
             if o.kind != 'escape' or not isinstance(o.exc, ValueError):
                 ctx.violation('malformed-names-refused', 'malformed', bad_idx, {'name': s, 'style': st, 'outcome': o.brief()}, mech=f"malformed-accepted:{st}")
                 break
-    for extra in ('ab__cd', 'ab_-cd', 'ab--cd', '_ab', 'ab_', '-ab', 'ab-', 'ab_cd__ef', 'ab-_cd', '__', '_', 'ab_cd_', 'ab___cd'):
+    import keyword as _keyword
+    # (names ending in a separator are refused whatever stands before it - also the PEP 8 spelling of a keyword, `class_`, `from_`)
+    kw_names = [k + '_' for k in _keyword.kwlist if k.islower()] + ['_' + k for k in ('class', 'in', 'from')] + ['my_class_', 'is_not_']
+    for extra in ('ab__cd', 'ab_-cd', 'ab--cd', '_ab', 'ab_', '-ab', 'ab-', 'ab_cd__ef', 'ab-_cd', '__', '_', 'ab_cd_', 'ab___cd') + tuple(kw_names):
         for st in STYLES:
             o = observe(rename, extra, st)
             ctx.count('malformed_names_checked')
